@@ -64,9 +64,9 @@ Record config : Set := {
   cf_has_refs : bool;    (* the sidecar has (one) curly-brace column reference *)
   cf_cats : list N;      (* categorical columns in column_metadata() order *)
   cf_fixed : bool;       (* true: conversion looks the unit up case-insensitively (fix f83491d) *)
-  cf_fix_none : bool;    (* true: a Delay value without conversion (None) leaves its group in place (fix-F2) *)
-  cf_fix_value : bool;   (* true: a non-numeric Delay value or onset leaves the group in place (fix-F3) *)
-  cf_fix_mask : bool     (* true: the onset mask of _run_checks is indexed by row label (fix-F4) *)
+  cf_fix_none : bool;    (* true: a Delay value without conversion (None) leaves its group in place (fix commit ef31cc7) *)
+  cf_fix_value : bool;   (* true: a non-numeric Delay value or onset leaves the group in place (fix commit e4bce88) *)
+  cf_fix_mask : bool     (* true: the onset mask of _run_checks is indexed by row label (fix commit c357095) *)
 }.
 
 (* ------------------------------------------------------------------ units *)
@@ -157,8 +157,8 @@ Definition ids_of (b : body) : list N :=
 (* one iteration of the inner loop of split_delay_tags: Ok (Some t) = the group moves to time t,
    Ok None = the group stays in its row (repaired code only), Exn = the loop raises.
    unrepaired:   onset_mod = tag.value_as_default_unit() + float(onsets[i])
-   fix-F2:       delay = tag.value_as_default_unit(); if delay is None: continue
-   fix-F3:       try: delay = ...; onset = float(onsets[i])   except ValueError: continue
+   fix commit ef31cc7:       delay = tag.value_as_default_unit(); if delay is None: continue
+   fix commit e4bce88:       try: delay = ...; onset = float(onsets[i])   except ValueError: continue
                  if delay is None or math.isnan(onset): continue *)
 Definition delay_decision (cfg : config) (o : option Z) (d : delay) : res (option Z) :=
   let value := value_as_default_unit (cf_fixed cfg) d in
@@ -297,7 +297,7 @@ Section Validate.
     end.
 
   (* onset_mask[row]: unrepaired = onset_mask.iloc[row_number] on the mask of the SORTED SPLIT frame;
-     repaired (fix-F4) = onset_mask.loc[row_number] on a mask with the index of the frame being iterated
+     repaired (fix commit c357095) = onset_mask.loc[row_number] on a mask with the index of the frame being iterated
      (unique labels), i.e. the row's own "onset is numeric" flag *)
   Definition mask_lookup (mask : mask_kind) (d : drow) : res bool :=
     match mask with
